@@ -22,8 +22,6 @@ assume-func github.com/iotaledger/hive.go/ds.NewSet(elements) (r)
   ensures r != nil
 assume-func github.com/iotaledger/hive.go/ds.NewSetMutations(elements) (r)
   ensures r != nil
-assume-func github.com/iotaledger/hive.go/lo.Return2(a, b) (r)
-  ensures r == b
 
 -- iteration interfaces: invoke the callback sequentially in the caller's goroutine, locks unchanged
 func ReadableSet.ForEach(recv, callback) (err)
